@@ -2,6 +2,8 @@
   C09 — Column-name variables bind to the right column; header line is never data.
 -/
 import Rbql.Model.PyString
+import Rbql.Proofs.HeaderLine
+import Rbql.Spec.EngineSpec
 namespace Rbql
 
 theorem pyEvalBody_cons_plain (q c : Char) (cs : Str) (h1 : c ≠ BSLASH) (h2 : c ≠ q) (h3 : c ≠ LF) (h4 : c ≠ CR) :
@@ -69,6 +71,34 @@ theorem C09_binds_right_column (names : List Str) (hd : names.Nodup) (i : Nat) (
     columnIndex names names[i] = some i := by
   unfold columnIndex
   simpa using find_zipIdx_of_nodup names 0 i hi hd
+
+/-- WITH (header) / WITH (noheader) in the query overrides the caller's flag (input and join tables are both
+`CSVRecordIterator`s, so this is the statement for either) -/
+theorem C09_with_overrides_flag (c : RCfg) (hasHeader : Bool) (b : Bool) (st : Stream) :
+    readAll c hasHeader (some b) st = readAll c b none st :=
+  readAll_modifier_overrides c hasHeader b st
+
+/-- the header line is never processed as a record: with a header, the records delivered are exactly those
+delivered without one minus the first, which is the header; nothing else changes (same warnings, same error) -/
+theorem C09_header_never_data (c : RCfg) (st : Stream) (r : ReadResult) (h : readAll c true none st = .ok r) :
+    ∃ r', readAll c false none st = .ok r' ∧ r'.header = none ∧ r'.warnings = r.warnings ∧
+      r'.records = (match r.header with | some hd => hd :: r.records | none => r.records) :=
+  readAll_header_never_data c st r h
+
+/-- the same for the JS reader -/
+theorem C09_header_never_data_js (st : JState) (r : ReadResult) (h : jsResult st true none = .ok r) :
+    ∃ r', jsResult st false none = .ok r' ∧ r'.header = none ∧ r'.warnings = r.warnings ∧
+      r'.records = (match r.header with | some hd => hd :: r.records | none => r.records) :=
+  jsResult_header_never_data st r h
+
+/-- NR is 1 on the first data record: the engine numbers the records it is handed from 1, and the header is not among them -/
+theorem C09_first_data_record_is_nr_one (q : SemQuery) (B : Table) (r : Row) (rest : Table) :
+    emissions q B (r :: rest) 0 =
+      (do let envs ← expandRecord q B 1 r
+          let hd ← projectEnvs q envs
+          let tl ← emissions q B rest 1
+          pure (hd ++ tl)) := by
+  rw [emissions]
 
 /-! non-vacuity -/
 example : pyEscape QUOTE ['a', '"', '\\', '\n', '\'', 'b'] = ['a', '\\', '"', '\\', '\\', '\\', 'n', '\'', 'b'] := by decide
